@@ -47,6 +47,23 @@ type emitted struct {
 	Table map[string][]string `json:"table"`
 }
 
+// magnitude orders the size-like operators of a field from mild to extreme.
+func magnitude(op string) int {
+	switch op {
+	case "varint-2e20", "grow-64k", "pt-grow-64k", "rep-many":
+		return 1
+	case "varint-2e22":
+		return 2
+	case "varint-2e24", "frame-size-limit-plus1":
+		return 3
+	case "len-huge", "frame-size-huge", "snappy-len-huge", "enum-unknown":
+		return 4
+	case "varint-max", "len-overflow":
+		return 5
+	}
+	return 0
+}
+
 func (g groupSpec) String() string { return g.Ep + "[" + g.V + "@" + g.St + "]" }
 func (c caseSpec) String() string {
 	s := strings.Join(c.Path, ".") + ":" + c.Op
@@ -76,7 +93,19 @@ func loadEmitted(dir string) (groups []emitted, table map[string][]string, err e
 		}
 		switch e.Kind {
 		case "group":
-			sort.Slice(e.Cases, func(i, j int) bool { return e.Cases[i].String() < e.Cases[j].String() })
+			// by field, then by how extreme the operator is (the runner stops escalating sizes on a
+			// field once the allocation guard has fired there), then by name
+			sort.Slice(e.Cases, func(i, j int) bool {
+				a, b := e.Cases[i], e.Cases[j]
+				pa, pb := strings.Join(a.Path, "."), strings.Join(b.Path, ".")
+				if pa != pb {
+					return pa < pb
+				}
+				if magnitude(a.Op) != magnitude(b.Op) {
+					return magnitude(a.Op) < magnitude(b.Op)
+				}
+				return a.String() < b.String()
+			})
 			groups = append(groups, e)
 		case "coverage":
 			table = e.Table
@@ -161,7 +190,8 @@ func locate(msgType string, data []byte, path []string) (start, afterTag, afterL
 		if mi == nil {
 			return
 		}
-		f := mi.field(name)
+		fname, last := stepOf(name)
+		f := mi.field(fname)
 		if f == nil {
 			return
 		}
@@ -170,6 +200,13 @@ func locate(msgType string, data []byte, path []string) (start, afterTag, afterL
 			return
 		}
 		idx := findNode(nodes, protowire.Number(f.Num), 0)
+		if last {
+			n := countNodes(nodes, protowire.Number(f.Num))
+			if n < 2 {
+				return
+			}
+			idx = findNode(nodes, protowire.Number(f.Num), n-1)
+		}
 		if idx < 0 {
 			return
 		}
@@ -208,7 +245,8 @@ func mutate(msgType string, data []byte, path []string, c caseSpec, env *renderE
 	if mi == nil {
 		return nil, fmt.Errorf("unknown message type %q", msgType)
 	}
-	f := mi.field(path[0])
+	name, last := stepOf(path[0])
+	f := mi.field(name)
 	if f == nil {
 		return nil, fmt.Errorf("unknown field %s.%s", msgType, path[0])
 	}
@@ -217,6 +255,14 @@ func mutate(msgType string, data []byte, path []string, c caseSpec, env *renderE
 		return nil, errNA
 	}
 	idx := findNode(nodes, protowire.Number(f.Num), 0)
+	if last {
+		// the last element of a repeated field (only if it is not also the first)
+		n := countNodes(nodes, protowire.Number(f.Num))
+		if n < 2 {
+			return nil, errNA
+		}
+		idx = findNode(nodes, protowire.Number(f.Num), n-1)
+	}
 	if len(path) == 1 {
 		var err error
 		nodes, err = applyOp(nodes, idx, f, c, env)
@@ -245,9 +291,17 @@ func mutate(msgType string, data []byte, path []string, c caseSpec, env *renderE
 		nodes[idx].val = seal(child)
 	}
 	if c.Reseal && env.fix != nil {
-		nodes = env.fix(msgType, path[0], nodes)
+		nodes = env.fix(msgType, name, nodes)
 	}
 	return encodeMsg(nodes), nil
+}
+
+// stepOf splits a path step "<field>@last" (last element of a repeated field).
+func stepOf(step string) (name string, last bool) {
+	if strings.HasSuffix(step, "@last") {
+		return strings.TrimSuffix(step, "@last"), true
+	}
+	return step, false
 }
 
 func isCipherKind(k string) bool { return k == "ct_x25519" || k == "ct_aes" }
@@ -531,7 +585,7 @@ func applyOp(nodes []wnode, idx int, f *fieldInfo, c caseSpec, env *renderEnv) (
 		}
 		return append(out, bytesNode(num, []byte(env.id("ancestor")))), nil
 	// ---- integers
-	case "varint-max", "varint-zero", "varint-flip", "enum-unknown":
+	case "varint-max", "varint-zero", "varint-flip", "enum-unknown", "varint-2e20", "varint-2e22", "varint-2e24":
 		var u uint64
 		if present {
 			u = nodes[idx].u
@@ -545,6 +599,12 @@ func applyOp(nodes []wnode, idx int, f *fieldInfo, c caseSpec, env *renderEnv) (
 			u ^= 1
 		case "enum-unknown":
 			u = 0x7ffffff0
+		case "varint-2e20":
+			u = 1 << 20
+		case "varint-2e22":
+			u = 1 << 22
+		case "varint-2e24":
+			u = 1 << 24
 		}
 		if present {
 			out[idx].u = u
